@@ -116,11 +116,14 @@ func (o *vectorOperator) initOutputs(ctx context.Context) error {
 	}()
 
 	lowCardSide, err := o.rhs.Series(ctx)
+	// Always wait for the goroutine loading the left-hand side, so that nothing
+	// of this query is still running (with an open querier) after a failure.
+	lhsErr := <-errChan
 	if err != nil {
 		return err
 	}
-	if err := <-errChan; err != nil {
-		return err
+	if lhsErr != nil {
+		return lhsErr
 	}
 
 	o.lhSampleIDs = highCardSide
